@@ -1,6 +1,6 @@
 """C14: integer conversions are exact and total with precise error kinds (oracle: Appendix A.8)."""
 from ..absint import Interp, Opts, Agg, Int, NEG
-from ..harness import (M, SCALES_ALL, dec_val, int_val, dec_parts, res_parts, variant_name, poly_eq, show_outcome, show_poly,
+from ..harness import (dec_coeff, M, SCALES_ALL, dec_val, int_val, dec_parts, res_parts, variant_name, poly_eq, show_outcome, show_poly,
                        get_db, run_jobs, find_root, query_trem)
 from ..db import INT_TYPES9, INT_RANGES
 from ..poly import padd, pscale, pconst
@@ -62,7 +62,7 @@ def run_job(job):
     # T::try_from(Decimal)
     fn = find_root(db, T_TRYFROM, [ty, 'Decimal'], 'try_from')
     d = dec_val(st, 'x', p)
-    x = d.fields[0]
+    x = dec_coeff(d)
     I.call_root(st, fn, [d])
     outs = I.explore(st)
     t = 10 ** p
